@@ -2,3 +2,5 @@
 import Gostatix.Model.Basic
 import Gostatix.Model.Bloom
 import Gostatix.Props.C01
+import Gostatix.Props.C11
+import Gostatix.Props.C18
